@@ -70,6 +70,16 @@ Theorem C15_stall_then_exactly_grace : forall h q es,
 Proof. exact (stall_then_exactly_grace bname store async_store). Qed.
 End C15.
 
+(* ---- the same for the code as TRANSLATED from the Python source on every run (harness/pytrans3.py -> BrokerGen.v):
+   run_src is the event loop with the translated Server.subscribe/unsubscribe/publish and Connection.on_publish/
+   on_subscribe/on_unsubscribe/authenticate/connection_lost/message_received plugged in; BrokerGenRun.run_src_eq proves it
+   equal to the model.  These theorems rely on functional_extensionality_dep (Coq standard library) and nothing else. *)
+From HP Require Import PyBroker BrokerGen BrokerGenEq BrokerGenRun BrokerGenProps.
+Theorem C15_src_run_is_model : forall bname store async_store h, run_src bname store async_store h = run bname store async_store h.
+Proof. exact run_src_eq. Qed.
+Theorem C15_src_ids_ok : forall bname store async_store h, IdsOK (run_src bname store async_store h).
+Proof. exact src_IdsOK. Qed.
+
 Print Assumptions C15_timer_frame.
 Print Assumptions C15_stall_starts_full_period.
 Print Assumptions C15_drain_cancels.
@@ -79,3 +89,5 @@ Print Assumptions C15_others_unaffected.
 Print Assumptions C15_ids_ok.
 Print Assumptions C15_deadline_counts_ticks.
 Print Assumptions C15_stall_then_exactly_grace.
+Print Assumptions C15_src_run_is_model.
+Print Assumptions C15_src_ids_ok.
